@@ -682,8 +682,8 @@ struct QfEngine : public Engine
       }
       if (k < 21)
       {
-         // an assumed default of zero length is kept out of the random stream: see corpus/C14/qf-rawdef-empty.ops
-         return "raw " + fn + " " + idx + " " + u64s(genOp(r, 12)) + " " + u64s(r.chance(2,3) ? (r.chance(1,2) ? B_ANY_TYPE : B_RAW_TYPE) : genTc(r)) + " " + (r.chance(9,10) ? hexOf(genRaw(r, r.chance(1,8))) : std::string("-")) + " " + (r.chance(1,3) ? hexOf(genRaw(r, false)) : std::string("-"));
+         // (value and assumed default may both be zero-length buffers)
+         return "raw " + fn + " " + idx + " " + u64s(genOp(r, 12)) + " " + u64s(r.chance(2,3) ? (r.chance(1,2) ? B_ANY_TYPE : B_RAW_TYPE) : genTc(r)) + " " + (r.chance(9,10) ? hexOf(genRaw(r, r.chance(1,8))) : std::string("-")) + " " + (r.chance(1,3) ? hexOf(genRaw(r, r.chance(1,5))) : std::string("-"));
       }
       if (k < 22) return "msg " + fn + " " + idx + " " + (r.chance(1,3) ? genMsgHex(r) : std::string("-")) + " 0";
       if (k < 25) return "msg " + hexOf(std::string(r.chance(3,4) ? "m" : fieldNames(r.below(8)))) + " " + idx + " " + (r.chance(1,3) ? genMsgHex(r) : std::string("-")) + " 1 " + genTree(r, depth+1, maxDepth);
